@@ -491,6 +491,37 @@ theorem C07_addrmap_error_unknown (s : St) (name : Text) (hn : tget s.amap name 
 theorem C07_host_unmapped (s : St) (h : Text) (hn : tget s.amap h = none) : hostName s h = h := by
   simp [hostName, hn]
 
+/-! ### the name table is a dictionary: no key twice -/
+
+theorem tset_keys_nodup (m : List (Text × Nat)) (k : Text) (v : Nat) (h : (m.map (·.1)).Nodup) :
+    ((tset m k v).map (·.1)).Nodup := by
+  unfold tset
+  rw [List.map_append, List.nodup_append]
+  refine ⟨(List.Sublist.map _ List.filter_sublist).nodup h, by simp, ?_⟩
+  intro a ha b hb
+  simp only [List.map_cons, List.map_nil, List.mem_singleton] at hb
+  subst hb
+  obtain ⟨e, he, rfl⟩ := List.mem_map.mp ha
+  have := (List.mem_filter.mp he).2
+  simpa using this
+
+theorem filter_keys_nodup (m : List (Text × Nat)) (p : Text × Nat → Bool) (h : (m.map (·.1)).Nodup) :
+    ((m.filter p).map (·.1)).Nodup :=
+  (List.Sublist.map _ List.filter_sublist).nodup h
+
+/-- **an ADDRMAP line leaves the name table a dictionary** (every name or address stands for at most one mapping) -/
+theorem C07_addrmap_keys_nodup (s : St) (name ip : Text) (h : (s.amap.map (·.1)).Nodup) :
+    ((step s (.addrMap name ip)).1.amap.map (·.1)).Nodup := by
+  show ((addrUpdate s name ip).amap.map (·.1)).Nodup
+  unfold addrUpdate
+  split
+  · split
+    · exact filter_keys_nodup _ _ h
+    · exact tset_keys_nodup _ _ _ (filter_keys_nodup _ _ h)
+  · split
+    · exact h
+    · exact tset_keys_nodup _ _ _ (tset_keys_nodup _ _ _ h)
+
 /-- `10.0.0.5` is given the name `example.com`; a stream to `10.0.0.5:80` is listed with that name; the name then moves to another
 address, and a stream to the old address keeps the address -/
 example :
